@@ -80,7 +80,7 @@ func c17Rules(c *Ctx, alias string) {
 		bufLeaf = bufLeaf[i+1:]
 	}
 	explore := func(fn *ssa.Function, N int64) ([]string, bool, int) {
-		rn := fn.Params[0].Name()
+		rn := PN(fn.Params[0])
 		wp := writeParam(fn)
 		maxIter := 3
 		if N > 0 {
